@@ -982,3 +982,52 @@ c07_extract!(c07_extract_len2, 2, 6);
 /// C07 as above for every entry name of length 1.
 // @h prop=C07,C06 tier=dev t=600 mem=12 name=c07_extract_len1 uws="fn:^std::ptr::drop_glue::<std::io::Error>$:2"
 c07_extract!(c07_extract_len1, 1, 5);
+
+/// C15 make_crypto_reader picks the password check the format prescribes: for a ZipCrypto entry
+/// opened with the (empty) password - key state = the APPNOTE initial constants - and an
+/// arbitrary 12-byte encryption header, the entry is accepted iff the decrypted 12th byte equals
+/// the high byte of the CRC, or - exactly when the data-descriptor flag is set (Info-ZIP variant)
+/// - the high byte of the DOS time; for EVERY CRC (incl. 0), time, flag and header.
+// @h prop=C15 tier=dev t=900 mem=6 uws="fn:^std::ptr::drop_glue::<std::io::Error>$:2"
+#[kani::proof]
+#[kani::unwind(14)]
+fn c15_validator_choice() {
+    let hdr: [u8; 12] = kani::any();
+    let crc: u32 = kani::any();
+    let time: u16 = kani::any();
+    let date: u16 = kani::any();
+    let dd: bool = kani::any();
+    let mut src = EnvReader::<12> { data: hdr, total: 12, pos: 0, env: Env::quiet() };
+    // compositional oracle: the crate's per-byte step (proven equal to APPNOTE for every key
+    // state in c15_decrypt_step_matches_appnote) from the APPNOTE initial key constants
+    let last = crate::zipcrypto::verif_h::last_header_byte_from_initial_keys(&hdr);
+    let want = if dd { (time >> 8) as u8 } else { (crc >> 24) as u8 };
+    let take = (&mut src as &mut dyn Read).take(12);
+    let pw: [u8; 0] = [];
+    match make_crypto_reader(
+        CompressionMethod::Stored,
+        crc,
+        DateTime::from_msdos(date, time),
+        dd,
+        take,
+        Some(&pw),
+        None,
+        #[cfg(feature = "aes-crypto")]
+        12,
+    ) {
+        Ok(Ok(r)) => {
+            assert_eq!(last, want, "entry accepted although the check byte does not match");
+            kani::cover!(dd);
+            kani::cover!(!dd && crc == 0);
+            core::mem::forget(r);
+        }
+        Ok(Err(_)) => {
+            assert!(last != want, "right check byte rejected");
+            kani::cover!(true);
+        }
+        Err(e) => {
+            core::mem::forget(e);
+            assert!(false, "a complete encryption header was refused");
+        }
+    }
+}
